@@ -53,11 +53,27 @@ op = st.one_of(
     st.tuples(st.just("snap")),
 )
 
+# Shapes that matter most (a persisted array shrinks / grows / vanishes / reappears between snapshots while the
+# integrator keeps running) are also generated as fixed skeletons followed by a random tail, so that they occur in
+# every run and not only by luck.
+_far = {"m": 1e-6, "a": 7.0, "ph": 1.0, "z": 0.01}
+SKELETONS = [
+    [("steps", 2), ("snap",), ("remove", 1), ("steps", 2), ("snap",), ("steps", 1), ("snap",)],
+    [("steps", 2), ("snap",), ("add", _far), ("steps", 2), ("snap",), ("remove", 0), ("steps", 1), ("snap",)],
+    [("steps", 1), ("snap",), ("remove_all",), ("snap",), ("add", _far), ("add", _far), ("steps", 2), ("snap",)],
+    [("snap",), ("steps", 3), ("reset",), ("snap",), ("steps", 2), ("snap",)],
+    [("steps", 2), ("snap",), ("rewind",), ("snap",), ("steps", 1), ("snap",)],
+]
+
 history_case = st.fixed_dictionaries({
     "system": S.hierarchical_system(nmin=1, nmax=4),
     "cfg": S.integrator_config(),
     "dt_frac": st.sampled_from([0.01, 0.03, 0.05]),
-    "ops": st.lists(op, min_size=3, max_size=16),
+    "ops": st.one_of(
+        st.lists(op, min_size=3, max_size=16),
+        st.lists(op, min_size=3, max_size=16),
+        st.tuples(st.sampled_from(SKELETONS), st.lists(op, min_size=0, max_size=6)).map(lambda t: [list(x) for x in t[0]] + list(t[1])),
+    ),
 })
 
 
@@ -183,7 +199,8 @@ def run_history(case, ctx):
                 a = p["a"] * (1 + sim.N) + 50.0 * nadded    # never on top of an existing particle
                 M = sum(q.m for q in sim.particles) or 1.0
                 v = math.sqrt(sim.G * M / a)
-                sim.add(m=p["m"], x=a * math.cos(p["ph"]), y=a * math.sin(p["ph"]), z=p["z"],
+                mass = p["m"] if sim.N > 0 else 1.0      # the first body is the central one: never massless
+                sim.add(m=mass, x=a * math.cos(p["ph"]), y=a * math.sin(p["ph"]), z=p["z"],
                         vx=-v * math.sin(p["ph"]), vy=v * math.cos(p["ph"]))
             elif kind == "remove" and not has_var:
                 if sim.N > 0:
